@@ -234,8 +234,12 @@ class ServerTwin:
                 for name, np in list(app["nameplates"].items()):
                     if np["mailbox"] == mbid:
                         del app["nameplates"][name]
-                app.setdefault("closed_mailboxes", {})[mbid] = {
-                    "moods": list(mb.get("moods", [])), "sides": list(mb["sides"])}
+                # (a client that lost the `closed` reply closes again after reconnecting: that re-creates and
+                # re-deletes the mailbox; the record of who closed with which mood accumulates)
+                prev = app.setdefault("closed_mailboxes", {}).get(mbid, {"moods": [], "sides": []})
+                app["closed_mailboxes"][mbid] = {
+                    "moods": prev["moods"] + list(mb.get("moods", [])),
+                    "sides": sorted(set(prev["sides"]) | set(mb["sides"]))}
                 mb["listeners"][:] = []
                 del app["mailboxes"][mbid]
         f["mailbox"] = None
